@@ -64,7 +64,7 @@ def make_skeleton(rng, idx: int, probes: bool = False) -> dict:
     for f in shared + [f for fs in per.values() for f in fs]:
         f["block"] = ctrl.no_lone_if_in_else(f["block"])
     return {"idx": idx, "shared": shared, "per": per, "indent": rng.choice(["    ", "  ", "\t"]),
-            "gap": rng.randint(0, 2), "carrier": rng.choice(["cli", "cli", "yaml", "json", "pyproject", "config-opt", "lang-override"])}
+            "gap": rng.randint(0, 2), "carrier": rng.choice(["cli", "cli", "cli-over-file", "yaml", "json", "pyproject", "config-opt", "lang-override"])}
 
 
 def render_project(sk: dict):
@@ -107,6 +107,11 @@ def exec_case(sk: dict) -> dict:
             # every language gets its limit from its own override; the top-level value is a decoy
             extra[".thailint.yaml"] = "nesting:\n  max_nesting_depth: 99\n" + "".join("  %s:\n    max_nesting_depth: %d\n" % (lang, L) for lang in ("python", "typescript", "javascript", "rust"))
             argv = ["nesting", "--format", "json", "."]
+        elif sk["carrier"] == "cli-over-file":
+            # the command-line limit wins over whatever a configuration file says (top level and per language), for every value of the limit
+            other = sk["idx"] % 5 + 2
+            extra[".thailint.yaml"] = "nesting:\n  max_nesting_depth: %d\n  typescript:\n    max_nesting_depth: %d\n" % (other, other + 1)
+            argv = ["nesting", "--max-depth", str(L), "--format", "json", "."]
         else:
             argv = ["nesting", "--max-depth", str(L), "--format", "json", "."]
         d = runner.new_dir("c")
